@@ -90,6 +90,8 @@ class Injector:
         self.real_mkdir = os.mkdir
         self.real_replace = os.replace
         self.real_unlink = os.unlink
+        self.real_os_open = os.open
+        self.fds = {}
 
     def rel(self, p):
         p = os.path.abspath(os.fspath(p))
@@ -119,7 +121,20 @@ class Injector:
     def install(self):
         inj = self
 
+        def os_open_(path, flags, *a, **k):
+            # tempfile.mkstemp and friends: a descriptor opened for writing below the cache root
+            r = inj.rel(path) if isinstance(path, (str, os.PathLike)) else None
+            if r is not None and not r.startswith("^") and flags & (os.O_WRONLY | os.O_RDWR):
+                inj.event(("open", r, "os.open"))
+                fd = inj.real_os_open(path, flags, *a, **k)
+                inj.fds[fd] = r
+                return fd
+            return inj.real_os_open(path, flags, *a, **k)
+
         def open_(file, mode="r", *a, **k):
+            if isinstance(file, int) and file in inj.fds and "b" in mode and any(c in mode for c in "wa+x"):
+                buffering = a[0] if a else k.get("buffering", -1)
+                return kopen(inj, file, mode, inj.fds.pop(file), buffering)
             r = inj.rel(file) if isinstance(file, (str, os.PathLike)) else None
             if r is not None and not r.startswith("^") and "b" in mode and any(c in mode for c in "wa+x"):
                 inj.event(("open", r, mode))
@@ -146,6 +161,7 @@ class Injector:
             return inj.real_unlink(path, *a, **k)
 
         builtins.open = open_
+        os.open = os_open_
         os.mkdir = mkdir_
         os.replace = replace_
         os.unlink = unlink_
@@ -263,13 +279,19 @@ READERS = {
     "plain": dict(overwrite=False, cache_only=False),
     "improved": dict(overwrite="improved", cache_only=False),
     "cache_only": dict(overwrite=False, cache_only=True),
+    # the DEFAULT constructor arguments: directory_split is left at "auto", i.e. the layout is
+    # detected from whatever the crashed writer left in the directory
+    "auto_plain": dict(overwrite=False, cache_only=False, auto=True),
+    "auto_cache_only": dict(overwrite=False, cache_only=True, auto=True),
 }
 
 
 def reader_session(split, variant):
     s = {"hash_method": "a", "split": split, "kind": "hyper", "slicing": False, "repeats": 2, "fresh": False,
          "call": "search"}
-    s.update(READERS[variant])
+    s.update({k: v for k, v in READERS[variant].items() if k != "auto"})
+    if READERS[variant].get("auto"):
+        s["split"] = "auto"
     return s
 
 
@@ -326,7 +348,7 @@ def run_point(sc, tmpl, info, new, kill, td, idx, deep):
     if obs["snap"] is not None:
         obs["probe"] = fork_call(dd_probe, root, keys)
     readers = {}
-    variants = ["plain", "improved", "cache_only"] if deep else ["plain"]
+    variants = (["plain", "improved", "cache_only"] if deep else ["plain"]) + ["auto_plain", "auto_cache_only"]
     for v in variants:
         rdir = os.path.join(td, "run%d_%s" % (idx, v), *sc["nest"])
         if obs["snap"] is not None:
@@ -610,14 +632,14 @@ def run(ctx):
                     if (not okm) and m is not None and m[1] == "UnboundLocalError" and qi == 0 and torn:
                         known = "diskdict-torn-write"
                     complete_vals = [c for c in (new_con, old_con) if c is not None]
-                    if v == "cache_only" and qi == 0 and j == 0 and not okm:
+                    if READERS[v]["cache_only"] and qi == 0 and j == 0 and not okm:
                         # documented: KeyError on a miss (the entry may legitimately be absent)
                         if m is None or m[1] != "KeyError":
                             ctx.fail("cache_only reader raised %r on the crashed entry" % (m,), rep_q, key=known)
                         continue
-                    if v == "cache_only" and qi == 0 and not okm:
+                    if READERS[v]["cache_only"] and qi == 0 and not okm:
                         continue
-                    if not okm and v == "cache_only" and sc["case"] == "newdir" and m is not None and m[1] == "KeyError":
+                    if not okm and READERS[v]["cache_only"] and sc["case"] == "newdir" and m is not None and m[1] == "KeyError":
                         continue
                     if not okm:
                         ctx.fail("a later process raised %r on %s" % (
@@ -630,7 +652,7 @@ def run(ctx):
                         pass            # nothing had been stored in a directory that did not exist yet
                     elif qi != 0:
                         want = info[qi]["con"]
-                        if v == "improved":
+                        if READERS[v]["overwrite"] == "improved":
                             # an 'improved' reader searches again by design; the entry may only get better
                             if con["score"] > want["score"]:
                                 ctx.fail("'improved' reader made an older entry worse", rep_q)
@@ -647,7 +669,7 @@ def run(ctx):
                         ctx.count("reader_hit_on_target")
                     elif searched:
                         ctx.count("reader_searched_again")
-                    if j == len(rrecs) - 1 and qi == 0 and v != "improved" and searched:
+                    if j == len(rrecs) - 1 and qi == 0 and READERS[v]["overwrite"] != "improved" and searched:
                         ctx.fail("after repairing the entry the same process searched again", rep_q)
                     if "tree" in r:
                         bad = c14.judge_tree(q, r["tree"], r["stored"], "hyper")
@@ -712,6 +734,7 @@ def run(ctx):
                     rhs_parts.append("(%s, %s)" % (coq(bool(c)) if isinstance(c, bool) else "false", gl))
             # (c) _maybe_run_optimizer of the fresh processes on the crashed contraction
             m_l, m_r = [], []
+            auto_l, auto_r = [], []          # directory_split="auto": detected layout
             for v, rr in sorted(ob["readers"].items()):
                 if rr[0] != "ok" or not rr[1]:
                     continue
@@ -722,17 +745,24 @@ def run(ctx):
                 htab = "[(%s, %s)]" % (c14.fpr_lit("a", r0["pre"]), c14.name_lit(r0["digest"]))
                 sess = reader_session(sc["split"], v)
                 orc = c14.con_lit(r0["new"][0][0], K) if r0["new"] else "(mkCon [] 0%Z [])"
+                if READERS[v].get("auto"):
+                    cfg = "(mkCfg false (split_auto cr) OvFalse %s)" % coq(bool(sess["cache_only"]))
+                    auto_l.append("split_auto cr")
+                    auto_r.append(coq(bool(r0["split_used"])))
+                else:
+                    cfg = c14.cfg_lit(sess, sc["split"])
                 m_l.append("fst (maybe_run (H_tab %s) ov (fun _ _ => %s) %s (dsk, 0) %s)" % (
-                    htab, orc, c14.cfg_lit(sess, sc["split"]), c14.net_lit(sc["pool"][0])))
+                    htab, orc, cfg, c14.net_lit(sc["pool"][0])))
                 if m[0] == "ok":
                     m_r.append("(Ok (%s, %s))" % (coq(bool(m[1])), c14.con_lit(m[2], K)))
                 else:
                     m_r.append({"KeyError": "KeyErr", "UnboundLocalError": "UnboundErr"}.get(m[1], "OtherErr"))
             lhs = ("let ct := %s in let cr := crash_at %d (%s con (tab_encode ct) K%d_0 %s) P%d in "
                    "let dsk := mkDD [] true cr in let ov := %s (tab_encode ct) (tab_decode ct) 3 in "
-                   "(fs_obs_sorted cr, ([%s], [%s]))") % (
-                ct, n_model, setops, sid, c14.con_lit(new_con, K), sid, ops, "; ".join(lhs_parts), "; ".join(m_l))
-            rhs = "(%s, ([%s], [%s]))" % (fs_l, "; ".join(rhs_parts), "; ".join(m_r))
+                   "(fs_obs_sorted cr, ([%s], ([%s], [%s])))") % (
+                ct, n_model, setops, sid, c14.con_lit(new_con, K), sid, ops, "; ".join(lhs_parts), "; ".join(m_l),
+                "; ".join(auto_l))
+            rhs = "(%s, ([%s], ([%s], [%s])))" % (fs_l, "; ".join(rhs_parts), "; ".join(m_r), "; ".join(auto_r))
             cases.append(("crash", lhs, rhs))
             recs.append(dict(rep, probe=repr(ob.get("probe")),
                              readers={v: repr(rr[1][0]["maybe"]) if rr[0] == "ok" and rr[1] else rr[0]
